@@ -197,7 +197,14 @@ func mutateField(r *rand.Rand, s *spec, name string) bool {
 	case "SmartContractAddress":
 		s.Contract = alt(s.Contract, hexAddr(r))
 	case "ChainReferenceId":
-		s.Chain = s.Chain + "-b"
+		if r.Intn(3) == 0 {
+			s.Chain = s.Chain + "-b"
+		} else {
+			old := s.Chain
+			for i := 0; s.Chain == old && i < 10; i++ {
+				s.Chain = chainSpelling(r, old)
+			}
+		}
 	case "Orchestrator":
 		s.Orch = (s.Orch + 1 + r.Intn(4)) % 5
 	case "Amount":
@@ -535,7 +542,13 @@ func TestCorr(t *testing.T) {
 	// ---------- pair oracle + effect case ----------
 	envE := newEnv(t, true)
 	doPair := func(c1, c2 types.EthereumClaim, kind string, replay any) {
-		k1, k2 := realKey(c1), realKey(c2)
+		k1, k2 := envE.storeKeyOf(c1), envE.storeKeyOf(c2)
+		for _, cc := range []types.EthereumClaim{c1, c2} {
+			if sk, want := envE.storeKeyOf(cc), realKey(cc); !bytes.Equal(sk, want) && hashPanics == 0 {
+				run.Violate("C11:store-key-not-exact-chain:"+typeName(cc), fmt.Sprintf("the keeper stores the attestation of a %s claim about chain %q under key %x; the partition by EXACT chain reference id requires %x",
+					typeName(cc), cc.GetChainReferenceId(), sk, want), replay)
+			}
+		}
 		d := effectDiff(c1, c2)
 		if bytes.Equal(k1, k2) && len(d) > 0 {
 			tag := "clean"
@@ -695,7 +708,7 @@ func TestCorr(t *testing.T) {
 		}
 		run.Count("hash", typeName(c)+fmt.Sprintf(":clean-%v", cleanClaim(c)))
 		if i%5 == 0 {
-			run.Case(fmt.Sprintf("C11.CKey %s %s %s", emit.Bytes(K), coqClaim(c), emit.Bytes(realKey(c))), !cleanClaim(c), nil)
+			run.Case(fmt.Sprintf("C11.CKey %s %s %s", emit.Bytes(K), coqClaim(c), emit.Bytes(envE.storeKeyOf(c))), !cleanClaim(c), nil)
 		} else {
 			var smp any
 			if i < 3 {
@@ -721,6 +734,16 @@ func TestCorr(t *testing.T) {
 				}
 				doPair(build(a), build(b), "one-field:"+typeNames[tt]+"."+fn, map[string]any{"kind": "pair", "a": toJ(a), "b": toJ(b)})
 			}
+		}
+	}
+	// the same body about a chain whose reference id is spelled differently, each run
+	for tt := 0; tt < 3; tt++ {
+		for _, ch := range []string{chainUpper, "Test-chain", " test-chain", "test-chain ", "test_chain"} {
+			a := honestSpec(r, tt, 1)
+			a.BatchNonce = 1
+			b := a.clone()
+			b.Chain = ch
+			doPair(build(a), build(b), "chain-spelling", map[string]any{"kind": "pair", "a": toJ(a), "b": toJ(b)})
 		}
 	}
 	// bodies differing ONLY in a field the hash exempts (event nonce incl. huge values, orchestrator), each run
@@ -1033,6 +1056,13 @@ func TestCorr(t *testing.T) {
 			steps, name := genesisHistory(r)
 			doGen(run, envE, K, name, steps)
 		}
+	}
+	for i := 0; i < 6; i++ {
+		steps, name := chainCaseHistory(r)
+		doGen(run, envE, K, name, steps)
+	}
+	for i := 0; i < 8; i++ {
+		doSplit(run, envE, r, i%4 != 3)
 	}
 	for i := 0; i < 24; i++ {
 		a := erc20A
